@@ -14,6 +14,7 @@ R9.7  the two generation branches are siblings: same emitter sequence, each emit
       IR names is idempotent (records and re-tests the final name)
 R9.12 an existing output package and force=False always select the compare-only branch (truth table of the mode switch)           [= R10.3]
 R9.13 no function on the generation path that reads a file / directory / the environment / a URL is memoised per process (functools caches)
+R9.14 every ruff sub-process runs `--isolated`: the formatter does not read the configuration of the directory the files happen to lie in
 R9.11 the two operands of every relative-path computation in RenderContext are normalised the same way (both lexical or both symlink-resolved)
 R9.10 compare-only generation creates the ancestor __init__.py files that direct generation creates (same package structure for the post-processor)
 """
@@ -412,6 +413,9 @@ def run(repo: Repo, rep: Report, tier: str) -> None:
     # R9.12: whenever the output package exists and force is off, the compare-only branch runs (nothing else decides "first run")   [= R10.3]
     reuse(repo, rep, "c10", {"R10.3": "R9.12"}, only=lambda subj: "mode switch" in subj)
     rule_no_memoised_outside_reads(repo, rep, "R9.13")
+    from rules.c10 import rule_formatter_is_isolated
+
+    rule_formatter_is_isolated(repo, rep, "R9.14")
 
     # R9.7b emit-time renaming of IR names must be idempotent (test, loop, record)
     _idempotent_renames(repo, rep)
